@@ -29,3 +29,10 @@ Check c19_v2_get_served : forall st p s,
 Check c19_v2_publish_class : forall st p s dp st' code,
   v2_publish st p s dp = (st', RStatus code) -> code <> OK ->
   exists c, class_of_grpc code = Some c /\ In c (causes_v2_publish st p s dp).
+Check c19_claim_already_exists : forall st p ids st',
+  provide_actuation st p ids = (st', inr AAlreadyExists) ->
+  exists id a, In id ids /\ In a (st_asubs st) /\ as_registered a = true /\ In id (as_ids a).
+Check c19_claim_served : forall st p ids,
+  first_error (can_actuate_id (st_db st) p (st_now st)) ids = None ->
+  (forall id a, In id ids -> In a (st_asubs st) -> as_registered a = true -> ~ In id (as_ids a)) ->
+  exists h, snd (provide_actuation st p ids) = inl h.
